@@ -407,6 +407,42 @@ MEASURED_INLINE = {
 
 
 # ---------------------------------------------------------------------------------------------- one function
+# ---------------------------------------------------------------------------------------------- x4: normalisation
+# Behaviour-preserving spellings of the same Python code are mapped to one canonical AST before translation, so that a
+# harmless refactor regenerates the same Lean definition.  Every rule preserves results, exceptions and evaluation order:
+#   N1  `m[g]`  ->  `m.group(g)`            when local `m` is bound once, by a `match`/`search`/`fullmatch` call
+#                                            (`re.Match.__getitem__` is defined as `group`)
+_MATCH_CALLS = {"match", "search", "fullmatch"}
+
+
+def _bound_once_by_match(fn, name):
+    binds = [n for n in _walk_scope(fn.body) if name in _targets_of(n)]
+    if len(binds) != 1 or not isinstance(binds[0], (ast.Assign, ast.AnnAssign)) or name in [a.arg for a in fn.args.args]:
+        return False
+    v = binds[0].value
+    tgt = binds[0].targets[0] if isinstance(binds[0], ast.Assign) else binds[0].target
+    return isinstance(tgt, ast.Name) and isinstance(v, ast.Call) and isinstance(v.func, ast.Attribute) and v.func.attr in _MATCH_CALLS
+
+
+class _X4Normaliser(ast.NodeTransformer):
+    def __init__(self, fn):
+        self.fn = fn
+
+    def visit_Subscript(self, node):
+        self.generic_visit(node)
+        if isinstance(node.ctx, ast.Load) and isinstance(node.value, ast.Name) and not isinstance(node.slice, ast.Slice) \
+                and _bound_once_by_match(self.fn, node.value.id):                                              # N1
+            new = ast.Call(func=ast.Attribute(value=node.value, attr="group", ctx=ast.Load()), args=[node.slice], keywords=[])
+            return ast.copy_location(new, node)
+        return node
+
+
+def x4_normalise(fn):
+    fn = _X4Normaliser(fn).visit(fn)
+    ast.fix_missing_locations(fn)
+    return fn
+
+
 class Fn:
     def __init__(self, ctx, lean_name, pyfunc, owner_cls=None):
         self.ctx, self.lean_name, self.pyfunc, self.owner_cls = ctx, lean_name, pyfunc, owner_cls
@@ -415,6 +451,7 @@ class Fn:
         self.node = tree.body[0]
         if not isinstance(self.node, ast.FunctionDef):
             raise Unsupported("not a plain function definition")
+        self.node = x4_normalise(self.node)          # x4: behaviour-preserving spellings -> one canonical AST
         self.globals = pyfunc.__globals__
         self.tmp = 0
         self.lines = []
